@@ -1043,7 +1043,7 @@ def feasible_edges(body, starts=(0,), blocked=frozenset(), known=None):
 # --------------------------------------------------------------------------------------------
 # single-definition back-trace (field sensitive)
 
-def trace_back(body, local, max_steps=40):
+def trace_back(body, local, max_steps=40, ok_only=False):
     """Follow `local` backwards while each local has exactly one definition.  Returns a list of
     steps, oldest last:  ('field', idx, name) / ('downcast', variant) / ('deref',) for projections
     applied on the source place, ('use',), ('ref',), ('cast', kind), ('agg', name, operand-index),
@@ -1057,6 +1057,14 @@ def trace_back(body, local, max_steps=40):
             steps.append(("param", cur))
             return steps
         ds = defs.get(cur, [])
+        if len(ds) > 1 and (ok_only or (steps and steps[-1] in (("downcast", "Continue"), ("downcast", "Ok"), ("downcast", "Some")))):
+            # the chain just took the Ok / Continue / Some payload out of this value: of its definitions only the ones that
+            # can hold that variant matter (a Result-returning helper written into this body has `_0 = Ok(..)` next to the
+            # `_0 = from_residual(..)` / `_0 = Err(..)` of its error exits)
+            live = [d_ for d_ in ds if not ((d_[0] == "call" and (d_[2].get("f") or "").endswith("FromResidual::from_residual"))
+                                            or (d_[0] == "stmt" and d_[3].get("r") == "agg" and d_[3].get("variant") in ("Err", "Break", "None")))]
+            if len(live) == 1:
+                ds = live
         if len(ds) != 1:
             if 1 <= cur <= body.argc:
                 steps.append(("param", cur))
@@ -1131,9 +1139,18 @@ def trace_through(body, local, transparent=TRANSPARENT_CALLS + RESULT_ADAPTERS, 
     allsteps = []
     cur = local
     for _ in range(max_hops):
-        st = trace_back(body, cur)
+        # past a `?` whose Continue payload the chain has taken, only the Ok definitions of the tested value matter
+        okctx = any(x in (("downcast", "Continue"), ("downcast", "Ok")) for x in allsteps) and not any(x[0] == "agg" for x in allsteps)
+        st = trace_back(body, cur, ok_only=okctx)
         allsteps.extend(st)
         last = st[-1]
+        if last[0] == "agg" and okctx and len(last) >= 4 and str(last[1]).endswith(("Result::Ok", "Option::Some")):
+            # `Ok(x)` built by a helper written into this body and taken apart again by the `?` above: go on from x
+            ag = body.stmts(last[2])[last[3]]
+            if len(ag.get("o", [])) == 1 and op_local(ag["o"][0]) is not None:
+                allsteps.pop()
+                cur = op_local(ag["o"][0])
+                continue
         if last[0] == "call":
             t = body.term(last[2])
             names = {t.get("f"), t.get("res")}
